@@ -1,2 +1,71 @@
-(* C04 (statements follow) *)
-From GJS Require Import Base Regex Schema GoType Exec.
+(* C04 - a document missing a required property is rejected, at every depth.
+   Statements only; every proof is `exact <lemma>`; Print Assumptions under each. *)
+From GJS Require Import Base Regex Schema GoType Gen Exec Valid ExecP GenP CoreP.
+
+(* an Unmarshal method whose validator list contains `required k` never accepts an object without k *)
+Theorem C04_method : forall decf zf dvf fs under vs kv k,
+  In (VRequired k) vs -> lookup k kv = None -> is_ok (run_method decf zf dvf fs under vs (JObj kv)) = false.
+Proof. exact method_rejects_missing_required. Qed.
+Print Assumptions C04_method.
+
+(* the generator puts that check into the method of every object schema with properties, for every
+   key that is required, declared and has no default; the method exists unless --only-models *)
+Theorem C04_generated : forall idf cf defs f self sub s scope t b k p,
+  plain_object s -> g_only_models cf = false -> scope <> [] ->
+  gen idf cf defs (S (S f)) MDeclared self sub s scope = Done (t, b) ->
+  In (k, p) (s_props s) -> mem k (c_required (s_con s)) = true -> c_default (s_con p) = None ->
+  exists c name fs plan, t = TStruct (c :: name) fs (Some plan) /\ In (VRequired k) plan.
+Proof. exact declared_object. Qed.
+Print Assumptions C04_generated.
+
+(* a failure anywhere inside a document makes the whole decode fail: through pointers, slices,
+   maps, struct fields, named types and references - any number of levels *)
+Theorem C04_propagates : forall fmt_ok env t j t' j', inside_star env t j t' j' ->
+  (forall f, is_ok (dec fmt_ok env f t' j') = false) -> forall f, is_ok (dec fmt_ok env f t j) = false.
+Proof. exact inside_star_fails. Qed.
+Print Assumptions C04_propagates.
+
+(* together: wherever the object sits (root, nested property, array element, map value, referenced
+   definition), a document that omits a required key of it is never accepted.  [s] generated as a
+   property or array item: *)
+Theorem C04_required_inline : forall fmt_ok env idf cf defs f self sub s scope t b k p T J kv,
+  plain_object s -> c_types (s_con s) = [SObject] -> g_only_models cf = false -> scope <> [] ->
+  gen idf cf defs (S (S (S f))) MInline self sub s scope = Done (t, b) ->
+  In (k, p) (s_props s) -> mem k (c_required (s_con s)) = true -> c_default (s_con p) = None ->
+  lookup k kv = None -> inside_star env T J t (JObj kv) ->
+  forall fuel, is_ok (dec fmt_ok env fuel T J) = false.
+Proof. exact required_enforced_inline. Qed.
+Print Assumptions C04_required_inline.
+(* [s] a definition or the root: *)
+Theorem C04_required_declared : forall fmt_ok env idf cf defs f self sub s scope t b k p T J kv,
+  plain_object s -> g_only_models cf = false -> scope <> [] ->
+  gen idf cf defs (S (S f)) MDeclared self sub s scope = Done (t, b) ->
+  In (k, p) (s_props s) -> mem k (c_required (s_con s)) = true -> c_default (s_con p) = None ->
+  lookup k kv = None -> inside_star env T J t (JObj kv) ->
+  forall fuel, is_ok (dec fmt_ok env fuel T J) = false.
+Proof. exact required_enforced_declared. Qed.
+Print Assumptions C04_required_declared.
+
+(* a present key satisfies the rule whatever its value (null included); a null container skips the checks *)
+Theorem C04_present : forall decf kv j k x, lookup k kv = Some x -> before_step decf (Some (Some kv)) j (VRequired k) = Ok tt.
+Proof. exact before_required_present. Qed.
+Print Assumptions C04_present.
+Theorem C04_null_container : forall decf j k, before_step decf (Some None) j (VRequired k) = Ok tt.
+Proof. exact before_required_null_doc. Qed.
+Print Assumptions C04_null_container.
+
+(* non-vacuity: a nested object inside an array inside the root *)
+Definition inner : schema :=
+  Sch (mkC [SObject] None None [[114]%N] 0 0 0 0 None None (mkBounds None None None None) None None)
+      [([114]%N, Sch (mkC [SString] None None [] 0 0 0 0 None None (mkBounds None None None None) None None) [] None false None [] [])]
+      None false None [] [].
+Definition root : schema :=
+  Sch (mkC [SObject] None None [] 0 0 0 0 None None (mkBounds None None None None) None None)
+      [([108]%N, Sch (mkC [SArray] None None [] 0 0 0 0 None None (mkBounds None None None None) None None) [] None false (Some inner) [] [])]
+      None false None [] [].
+Example C04_example :
+  exists t b, gen (fun s => s) (mkCfg false false) [] 20 MDeclared None false root [82]%N = Done (t, b) /\
+    is_ok (dec (fun _ _ => true) [] 20 t (JObj [([108]%N, JArr [JObj [([114]%N, JStr [120]%N)]; JObj []])])) = false /\
+    is_ok (dec (fun _ _ => true) [] 20 t (JObj [([108]%N, JArr [JObj [([114]%N, JStr [120]%N)]])])) = true /\
+    plain_object inner /\ mem [114]%N (c_required (s_con inner)) = true.
+Proof. eexists. eexists. split; [vm_compute; reflexivity|]. vm_compute. repeat split; try reflexivity; discriminate. Qed.
